@@ -725,9 +725,13 @@ impl FileStateMachine {
         // checkpoint; WAL is only the post-checkpoint delta. Even if 0 entries were applied
         // (e.g. truncated tail only), the WAL is stale. Keeping it would cause infinite
         // replay-of-the-same-truncated-entry on every subsequent startup.
-        self.clear_wal_async().await?;
+        //
+        // The replayed records are the only durable copy of those entries: checkpoint
+        // (data + metadata) before the WAL is cleared, otherwise a second crash loses them
+        // while later WAL records move last_applied past them.
+        self.checkpoint().await?;
         debug!(
-            "Cleared WAL after replay ({} operations applied)",
+            "Checkpointed and cleared WAL after replay ({} operations applied)",
             applied_count
         );
 
